@@ -48,6 +48,23 @@
 //!   AXFR-style IXFR.  Every response must verify, be <= 65535 octets, the
 //!   stream must be a valid transfer in which every record travels exactly
 //!   once, and the real receiver must end up with the sender's zone.
+//! Part W (wire / stream client): the streams of parts R and F are served by
+//!   a scripted server over an in-memory connection and read by the real
+//!   `net::client::stream` transport (multi-response request, its own
+//!   end-of-transfer detection) which hands them to the pipeline.  Honest
+//!   streams in one message, with one cut at every position and one RR per
+//!   message (thorough: all splits up to 8 RRs), plus every fault on the
+//!   single-message and one-RR-per-message packagings; plain serials and the
+//!   wrapping scheme.  Part S also runs every TCP request through the stream
+//!   client against a minimal server loop around the real middleware (what
+//!   the client delivers must be what the server sent, up to the end of the
+//!   transfer), with the `Zone` itself and an `Arc<ZoneTree>` as data
+//!   providers, with a request for a zone the sender does not have (must be
+//!   refused by one error response) and with a size limit no record fits in.
+//!   Faults added: a record whose owner is outside the zone, a message whose
+//!   last octets are missing.  Every diff is also read through the `ZoneDiff`
+//!   trait and compared with its fields; ZoneUpdater::is_finished must agree
+//!   with the interpreter.
 //! Serial axis: model serials are logical (1, 2, 3 = versions of a history);
 //!   a scheme (start, step) maps them to SOA serials.  Scheme 0 is 1,2,3; seven
 //!   more cross the 2^32 wrap (FFFFFFFF->0->1, FFFFFFFF->1->3, FFFFFFFE->
@@ -96,7 +113,7 @@ use std::pin::Pin;
 use domain::rdata::{Soa, Txt, ZoneRecordData, A};
 use domain::zonetree::types::ZoneUpdate;
 use domain::zonetree::update::ZoneUpdater;
-use domain::zonetree::{InMemoryZoneDiff, ReadableZone, Rrset, SharedRrset, WritableZoneNode, Zone, ZoneBuilder};
+use domain::zonetree::{InMemoryZoneDiff, ReadableZone, Rrset, SharedRrset, WritableZoneNode, Zone, ZoneBuilder, ZoneDiff, ZoneDiffItem, ZoneTree};
 use mc::*;
 use rayon::prelude::*;
 use serde_json::{json, Value};
@@ -108,8 +125,8 @@ type SName = Name<Bytes>;
 type SData = ZoneRecordData<Bytes, SName>;
 
 const TTL: u32 = 3600;
-const OWNERS: [&str; 4] = ["z.", "a.z.", "b.a.z.", "c.z."];
-const OWNERS_NODOT: [&str; 4] = ["z", "a.z", "b.a.z", "c.z"];
+const OWNERS: [&str; 6] = ["z.", "a.z.", "b.a.z.", "c.z.", "x.y.", "y."]; // the last two are outside the zone (fault / foreign request only)
+const OWNERS_NODOT: [&str; 6] = ["z", "a.z", "b.a.z", "c.z", "x.y", "y"];
 
 // ====================================================================
 // Model
@@ -403,11 +420,13 @@ struct MsgSpec {
     rcode: u8,
     tc: bool,
     ns: u8,
+    /// octets cut off the end of the built message
+    chop: u8,
 }
 
 impl MsgSpec {
     fn plain(qtype: u16, with_q: bool, recs: &[MRec]) -> MsgSpec {
-        MsgSpec { qd: with_q as u8, qtype, recs: recs.to_vec(), qr: true, opcode: 0, rcode: 0, tc: false, ns: 0 }
+        MsgSpec { qd: with_q as u8, qtype, recs: recs.to_vec(), qr: true, opcode: 0, rcode: 0, tc: false, ns: 0, chop: 0 }
     }
 }
 
@@ -435,7 +454,8 @@ fn build_msg(s: &MsgSpec) -> Bytes {
         au.push((name(0), Class::IN, Ttl::from_secs(TTL), data(RD::A(9)))).unwrap();
     }
     let m: Message<Bytes> = au.into_message();
-    m.into_octets()
+    let b = m.into_octets();
+    b.slice(..b.len() - (s.chop as usize).min(b.len()))
 }
 
 /// Split `seq` at the cut positions in `mask` (bit i = cut after RR i).
@@ -503,46 +523,67 @@ fn err_class(s: String) -> String {
     s.split(|c| c == '(' || c == '{' || c == ':').next().unwrap_or("").trim().to_string()
 }
 
-async fn run_pipeline(zone: &Zone, msgs: &[Bytes], rec: &mut RealRec) -> Outcome {
-    let mut up = match ZoneUpdater::new(zone.clone()).await {
-        Ok(u) => u,
-        Err(e) => return Outcome::Err { at: 0, class: format!("updater-new:{}", err_class(format!("{e}"))) },
-    };
-    let mut it = XfrResponseInterpreter::new();
-    // The driver behaves like a client on a stream transport: a first IXFR
-    // message holding only the SOA is the UDP "retry over TCP" signal only
-    // if nothing follows it; otherwise the following messages are passed on.
-    let mut lone_soa_at: Option<usize> = None;
-    let lone_soa_err = |at: usize| Outcome::Err { at, class: "iter:SingleSoaIxfrTcpRetrySignal".into() };
-    for (i, m) in msgs.iter().enumerate() {
-        if it.is_finished() {
-            if let Some(at) = lone_soa_at {
-                return lone_soa_err(at); // the interpreter refuses to go on after the signal
+/// The receiving pipeline: real interpreter + real updater, fed one response
+/// message at a time (by the batch driver below or by the stream client).
+struct Pipe {
+    up: ZoneUpdater,
+    it: XfrResponseInterpreter,
+    /// The driver behaves like a client on a stream transport: a first IXFR
+    /// message holding only the SOA is the UDP "retry over TCP" signal only
+    /// if nothing follows it; otherwise the following messages are passed on.
+    lone_soa_at: Option<usize>,
+    i: usize,
+}
+
+enum Feed {
+    More,
+    /// the transfer is complete, further messages are not looked at
+    Stop,
+    End(Outcome),
+}
+
+fn lone_soa_err(at: usize) -> Outcome {
+    Outcome::Err { at, class: "iter:SingleSoaIxfrTcpRetrySignal".into() }
+}
+
+impl Pipe {
+    async fn new(zone: &Zone) -> Result<Pipe, Outcome> {
+        match ZoneUpdater::new(zone.clone()).await {
+            Ok(up) => Ok(Pipe { up, it: XfrResponseInterpreter::new(), lone_soa_at: None, i: 0 }),
+            Err(e) => Err(Outcome::Err { at: 0, class: format!("updater-new:{}", err_class(format!("{e}"))) }),
+        }
+    }
+
+    async fn feed(&mut self, zone: &Zone, m: &Bytes, rec: &mut RealRec) -> Feed {
+        let i = self.i;
+        if self.it.is_finished() {
+            if let Some(at) = self.lone_soa_at {
+                return Feed::End(lone_soa_err(at)); // the interpreter refuses to go on after the signal
             }
-            break;
+            return Feed::Stop;
         }
         let msg = match Message::from_octets(m.clone()) {
             Ok(m) => m,
-            Err(_) => return Outcome::Err { at: i, class: "short-message".into() },
+            Err(_) => return Feed::End(Outcome::Err { at: i, class: "short-message".into() }),
         };
-        let iter = match it.interpret_response(msg) {
+        let iter = match self.it.interpret_response(msg) {
             Ok(x) => x,
             Err(e) => {
-                if let (Some(at), domain::net::xfr::protocol::Error::Finished) = (lone_soa_at, &e) {
-                    return lone_soa_err(at);
+                if let (Some(at), domain::net::xfr::protocol::Error::Finished) = (self.lone_soa_at, &e) {
+                    return Feed::End(lone_soa_err(at));
                 }
-                return Outcome::Err { at: i, class: format!("interp:{}", err_class(format!("{e:?}"))) };
+                return Feed::End(Outcome::Err { at: i, class: format!("interp:{}", err_class(format!("{e:?}"))) });
             }
         };
-        lone_soa_at = None;
+        self.lone_soa_at = None;
         for u in iter {
             let u = match u {
                 Ok(u) => u,
-                Err(IterationError::SingleSoaIxfrTcpRetrySignal) if i + 1 < msgs.len() => {
-                    lone_soa_at = Some(i);
+                Err(IterationError::SingleSoaIxfrTcpRetrySignal) => {
+                    self.lone_soa_at = Some(i);
                     continue;
                 }
-                Err(e) => return Outcome::Err { at: i, class: format!("iter:{}", err_class(format!("{e:?}"))) },
+                Err(e) => return Feed::End(Outcome::Err { at: i, class: format!("iter:{}", err_class(format!("{e:?}"))) }),
             };
             let (commits, nm) = match &u {
                 ZoneUpdate::DeleteAllRecords => (false, "DeleteAll"),
@@ -555,25 +596,236 @@ async fn run_pipeline(zone: &Zone, msgs: &[Bytes], rec: &mut RealRec) -> Outcome
             };
             rec.updates.push(nm);
             let before = if commits { Some(observe(zone)) } else { None };
-            match up.apply(u).await {
+            match self.up.apply(u).await {
                 Ok(Some(d)) => {
                     if let Some(b) = before {
+                        if let Some(why) = diff_trait_view_differs(&d) {
+                            return Feed::End(Outcome::Err { at: i, class: format!("diff-trait-view:{why}") });
+                        }
                         rec.diffs.push((b, diff_obs(&d), observe(zone)));
                     }
                 }
                 Ok(None) => {}
-                Err(e) => return Outcome::Err { at: i, class: format!("updater:{}", err_class(format!("{e}"))) },
+                Err(e) => return Feed::End(Outcome::Err { at: i, class: format!("updater:{}", err_class(format!("{e}"))) }),
             }
         }
-        rec.consumed = i + 1;
+        self.i += 1;
+        rec.consumed = self.i;
         let r = zone.read();
         rec.snaps.push(observe_reader(r.as_ref()));
         rec.readers.push(r);
+        Feed::More
     }
-    if it.is_finished() {
-        Outcome::Finished
-    } else {
-        Outcome::Incomplete
+
+    /// No further message will come.
+    fn finish(self) -> Outcome {
+        if let Some(at) = self.lone_soa_at {
+            return lone_soa_err(at);
+        }
+        if self.it.is_finished() != self.up.is_finished() {
+            return Outcome::Err { at: self.i, class: format!("updater.is_finished()={}-but-interpreter.is_finished()={}", self.up.is_finished(), self.it.is_finished()) };
+        }
+        if self.it.is_finished() {
+            Outcome::Finished
+        } else {
+            Outcome::Incomplete
+        }
+    }
+}
+
+async fn run_pipeline(zone: &Zone, msgs: &[Bytes], rec: &mut RealRec) -> Outcome {
+    let mut pipe = match Pipe::new(zone).await {
+        Ok(p) => p,
+        Err(o) => return o,
+    };
+    for m in msgs {
+        match pipe.feed(zone, m, rec).await {
+            Feed::More => {}
+            Feed::Stop => break,
+            Feed::End(o) => return o,
+        }
+    }
+    pipe.finish()
+}
+
+/// The same diff read through the `ZoneDiff` trait (what the sender
+/// middleware consumes) and through the public fields must agree.
+fn diff_trait_view_differs(d: &InMemoryZoneDiff) -> Option<String> {
+    use futures_util::FutureExt;
+    let start = d.start_serial().now_or_never()?;
+    let end = d.end_serial().now_or_never()?;
+    if start != d.start_serial || end != d.end_serial {
+        return Some("serials".into());
+    }
+    let added: Vec<_> = d.added().collect::<Vec<_>>().now_or_never()?;
+    let removed: Vec<_> = d.removed().collect::<Vec<_>>().now_or_never()?;
+    if added.len() != d.added.len() || removed.len() != d.removed.len() {
+        return Some("item-count".into());
+    }
+    for (which, items, map) in [("added", &added, &d.added), ("removed", &removed, &d.removed)] {
+        for it in items.iter() {
+            let (k, v) = (it.key(), it.value());
+            if map.get(k) != Some(v) {
+                return Some(format!("{which}-item"));
+            }
+            let got = if which == "added" { d.get_added(k.0.clone(), k.1).now_or_never()? } else { d.get_removed(k.0.clone(), k.1).now_or_never()? };
+            if got != Some(v) {
+                return Some(format!("get_{which}"));
+            }
+        }
+    }
+    None
+}
+
+// ====================================================================
+// The real stream client between the wire and the pipeline
+// ====================================================================
+
+type CliReq = domain::net::client::request::RequestMessage<Vec<u8>>;
+type CliReqMulti = domain::net::client::request::RequestMessageMulti<Vec<u8>>;
+
+/// The XFR request a client sends: question z. AXFR/IXFR, for IXFR with the
+/// SOA of the version the client holds in the authority section.
+fn xfr_request_msg(qtype: u16, client_serial: Option<u32>) -> Message<Vec<u8>> {
+    let mut q = MessageBuilder::new_vec().question();
+    q.push((name(0), Rtype::from_int(qtype))).unwrap();
+    match client_serial {
+        Some(s) => {
+            let mut a = q.authority();
+            a.push((name(0), Class::IN, Ttl::from_secs(TTL), data(RD::Soa(s)))).unwrap();
+            a.into_message()
+        }
+        None => q.into_message(),
+    }
+}
+
+async fn read_framed<R: tokio::io::AsyncRead + Unpin>(r: &mut R) -> Option<Vec<u8>> {
+    use tokio::io::AsyncReadExt;
+    let mut l = [0u8; 2];
+    r.read_exact(&mut l).await.ok()?;
+    let mut buf = vec![0u8; u16::from_be_bytes(l) as usize];
+    r.read_exact(&mut buf).await.ok()?;
+    Some(buf)
+}
+
+async fn write_framed<W: tokio::io::AsyncWrite + Unpin>(w: &mut W, m: &[u8]) -> bool {
+    use tokio::io::AsyncWriteExt;
+    w.write_all(&(m.len() as u16).to_be_bytes()).await.is_ok() && w.write_all(m).await.is_ok()
+}
+
+/// What the stream client handed over.
+struct Delivered {
+    msgs: Vec<Bytes>,
+    /// None: the client reported the end of the response stream
+    error: Option<String>,
+}
+
+/// Drive a multi-response request through the real stream client connected
+/// by an in-memory duplex to `server`, which gets the server end and the
+/// request octets the client really sent.  `on_msg` sees every message the
+/// client delivers and says whether it wants more.
+async fn client_exchange<S, F, Fut>(qtype: u16, client_serial: Option<u32>, server: S, mut on_msg: F) -> Delivered
+where
+    S: FnOnce(tokio::io::DuplexStream, Vec<u8>) -> Fut + Send + 'static,
+    Fut: Future<Output = ()> + Send + 'static,
+    F: AsyncFnMut(&Bytes) -> bool,
+{
+    use domain::net::client::request::SendRequestMulti;
+    let (cli, mut srv) = tokio::io::duplex(1 << 20);
+    let mut cfg = domain::net::client::stream::Config::new();
+    cfg.set_response_timeout(std::time::Duration::from_secs(2));
+    cfg.set_streaming_response_timeout(std::time::Duration::from_secs(2));
+    cfg.set_idle_timeout(std::time::Duration::from_secs(1));
+    let (conn, transport) = domain::net::client::stream::Connection::<CliReq, CliReqMulti>::with_config(cli, cfg);
+    let tr = tokio::spawn(transport.run());
+    let sv = tokio::spawn(async move {
+        if let Some(req) = read_framed(&mut srv).await {
+            server(srv, req).await;
+        }
+    });
+    let mut out = Delivered { msgs: vec![], error: None };
+    match CliReqMulti::new(xfr_request_msg(qtype, client_serial)) {
+        Err(e) => out.error = Some(format!("request:{}", err_class(format!("{e:?}")))),
+        Ok(req) => {
+            let mut get = conn.send_request(req);
+            loop {
+                match tokio::time::timeout(std::time::Duration::from_secs(8), get.get_response()).await {
+                    Err(_) => {
+                        out.error = Some("hang".into());
+                        break;
+                    }
+                    Ok(Err(e)) => {
+                        out.error = Some(err_class(format!("{e:?}")));
+                        break;
+                    }
+                    Ok(Ok(None)) => break,
+                    Ok(Ok(Some(m))) => {
+                        let b = m.into_octets();
+                        out.msgs.push(b.clone());
+                        if !on_msg(&b).await {
+                            break;
+                        }
+                    }
+                }
+            }
+        }
+    }
+    drop(conn);
+    sv.abort();
+    tr.abort();
+    let _ = sv.await;
+    let _ = tr.await;
+    out
+}
+
+/// A scripted server: answers the request with the given messages (carrying
+/// the ID of the request) and closes the connection.
+fn scripted_server(msgs: Vec<Bytes>) -> impl FnOnce(tokio::io::DuplexStream, Vec<u8>) -> Pin<Box<dyn Future<Output = ()> + Send>> + Send + 'static {
+    move |mut srv, req| {
+        Box::pin(async move {
+            for m in &msgs {
+                let mut v = m.to_vec();
+                if v.len() >= 2 && req.len() >= 2 {
+                    v[0] = req[0];
+                    v[1] = req[1];
+                }
+                if !write_framed(&mut srv, &v).await {
+                    return;
+                }
+            }
+            use tokio::io::AsyncWriteExt;
+            let _ = srv.shutdown().await;
+        })
+    }
+}
+
+/// The pipeline fed by the real stream client from a scripted server.
+async fn run_pipeline_via_client(zone: &Zone, msgs: &[Bytes], qtype: u16, client_serial: Option<u32>, rec: &mut RealRec) -> Outcome {
+    let mut pipe = match Pipe::new(zone).await {
+        Ok(p) => p,
+        Err(o) => return o,
+    };
+    let mut ended: Option<Outcome> = None;
+    let d = client_exchange(qtype, client_serial, scripted_server(msgs.to_vec()), async |b: &Bytes| match pipe.feed(zone, b, rec).await {
+        Feed::More => true,
+        Feed::Stop => false,
+        Feed::End(o) => {
+            ended = Some(o);
+            false
+        }
+    })
+    .await;
+    if let Some(o) = ended {
+        return o;
+    }
+    match d.error {
+        // the client gave up: an error of the transfer unless the pipeline had all it needs
+        Some(e) if !pipe.it.is_finished() => Outcome::Err { at: d.msgs.len(), class: format!("client:{e}") },
+        None if pipe.lone_soa_at.is_some() && d.msgs.len() < msgs.len() => {
+            // the client itself declared the response complete after a first message that holds only the SOA
+            Outcome::Err { at: 0, class: "client:end-of-responses-after-a-first-message-holding-only-the-soa".into() }
+        }
+        _ => pipe.finish(),
     }
 }
 
@@ -589,11 +841,20 @@ struct RealOut {
     reader_unstable: Option<usize>,
 }
 
-fn run_real(mk_zone: &dyn Fn() -> Zone, msgs: &[Bytes]) -> RealOut {
+fn run_real(mk_zone: &dyn Fn() -> Zone, msgs: &[Bytes], via_client: Option<(u16, Option<u32>)>) -> RealOut {
     let zone = mk_zone();
     let pinned = zone.read();
     let mut rec = RealRec::default();
-    let outcome = guard(|| RT.with(|rt| rt.block_on(run_pipeline(&zone, msgs, &mut rec))));
+    let outcome = guard(|| {
+        RT.with(|rt| {
+            rt.block_on(async {
+                match via_client {
+                    None => run_pipeline(&zone, msgs, &mut rec).await,
+                    Some((qtype, serial)) => run_pipeline_via_client(&zone, msgs, qtype, serial, &mut rec).await,
+                }
+            })
+        })
+    });
     let final_obs = observe(&zone);
     let pinned_before = observe_reader(pinned.as_ref());
     let mut reader_unstable = None;
@@ -658,6 +919,40 @@ fn crec_from_raw(msg: &[u8], r: &wire::RawRecord) -> Result<CRec, String> {
     Ok(CRec { owner, rtype: r.rtype, ttl: r.ttl, rdata })
 }
 
+/// Like `wire::read_message`, but keeps what could be read when the message
+/// is damaged further on (a receiver works through a message record by
+/// record).  Returns the readable part and whether the message was intact.
+fn read_message_upto_damage(msg: &[u8]) -> Option<(wire::RawMessage, bool)> {
+    if msg.len() < 12 {
+        return None;
+    }
+    let mut m = wire::RawMessage { id: wire::u16_at(msg, 0).ok()?, flags: wire::u16_at(msg, 2).ok()?, ..Default::default() };
+    for i in 0..4 {
+        m.counts[i] = wire::u16_at(msg, 4 + 2 * i).ok()?;
+    }
+    let mut pos = 12;
+    for _ in 0..m.counts[0] {
+        let Ok((qname, p)) = wire::read_name(msg, pos, &mut m.pointers) else { return Some((m, false)) };
+        let (Ok(qtype), Ok(qclass)) = (wire::u16_at(msg, p), wire::u16_at(msg, p + 2)) else { return Some((m, false)) };
+        pos = p + 4;
+        m.questions.push(wire::RawQuestion { qname, qtype, qclass });
+    }
+    for sec in 0..3 {
+        for _ in 0..m.counts[sec + 1] {
+            let Ok((owner, p)) = wire::read_name(msg, pos, &mut m.pointers) else { return Some((m, false)) };
+            let (Ok(rtype), Ok(class), Ok(ttl), Ok(rdlen)) = (wire::u16_at(msg, p), wire::u16_at(msg, p + 2), wire::u32_at(msg, p + 4), wire::u16_at(msg, p + 8)) else {
+                return Some((m, false));
+            };
+            let Some(rdata) = msg.get(p + 10..p + 10 + rdlen as usize) else { return Some((m, false)) };
+            m.sections[sec].push(wire::RawRecord { owner, rtype, class, ttl, rdata_pos: p + 10, rdata: rdata.to_vec() });
+            pos = p + 10 + rdlen as usize;
+        }
+    }
+    m.end = pos;
+    let intact = pos == msg.len();
+    Some((m, intact))
+}
+
 fn with_soa(content: &BTreeSet<CRec>, soa: &CRec) -> Obs {
     let mut v: Obs = content.iter().cloned().collect();
     v.push(soa.clone());
@@ -700,10 +995,10 @@ fn reference(msgs: &[Bytes], old: &Obs) -> RefOut {
             trailing = true;
             break;
         }
-        let raw = match wire::read_message(m) {
-            Ok(r) if r.end == m.len() => r,
-            _ => invalid!("malformed"),
-        };
+        let Some((raw, intact)) = read_message_upto_damage(m) else { invalid!("malformed") };
+        if raw.questions.len() != raw.counts[0] as usize {
+            invalid!("malformed");
+        }
         let f = raw.flags;
         if f >> 15 & 1 == 0 {
             invalid!("hdr-qr0");
@@ -760,6 +1055,12 @@ fn reference(msgs: &[Bytes], old: &Obs) -> RefOut {
                 Err(_) => invalid!("malformed"),
             };
             rr_total += 1;
+            if !(c.owner == "z" || c.owner.ends_with(".z")) {
+                // a record outside the zone cannot be part of it: a receiver may
+                // refuse the transfer or leave the record out
+                tainted = true;
+                continue;
+            }
             let is_soa = c.rtype == 6;
             match st {
                 St::Start => {
@@ -834,6 +1135,13 @@ fn reference(msgs: &[Bytes], old: &Obs) -> RefOut {
                     }
                 }
             }
+        }
+        if !intact && !ended {
+            // (versions completed by the records in front of the damage stay completed)
+            invalid!("malformed");
+        }
+        if !intact {
+            trailing = true;
         }
     }
     if !ended {
@@ -981,6 +1289,9 @@ struct Case<'a> {
     custom_old: Option<(Obs, &'a (dyn Fn() -> Zone + Sync))>,
     /// how to re-run the case when it is not described by (old zone, octets)
     replay_as: Option<Value>,
+    /// Some((qtype, client serial)): the messages are served over an in-memory
+    /// connection and reach the pipeline through the real stream client
+    via_client: Option<(u16, Option<u32>)>,
 }
 
 fn case_json(c: &Case) -> Value {
@@ -995,6 +1306,7 @@ fn case_json(c: &Case) -> Value {
         "old": c.old_kinds,
         "old_serial": c.old_serial,
         "fault": c.fault,
+        "via_client": c.via_client.map(|(q, s)| json!({"qtype": q, "serial": s})),
         "msgs": c.msgs.iter().map(|m| hex(m)).collect::<Vec<_>>(),
     })
 }
@@ -1015,8 +1327,8 @@ fn judge(sh: &Shared, c: &Case, verbose: bool) {
     };
     let refo = reference(&c.msgs, &old_obs);
     let real = match &c.custom_old {
-        Some((_, mk)) => run_real(&|| mk(), &c.msgs),
-        None => run_real(&|| build_zone(c.old_serial, c.old), &c.msgs),
+        Some((_, mk)) => run_real(&|| mk(), &c.msgs, c.via_client),
+        None => run_real(&|| build_zone(c.old_serial, c.old), &c.msgs, c.via_client),
     };
     let det = c.part != "S";
     sh.stats.eval();
@@ -1329,6 +1641,9 @@ struct Bounds {
     hist_aborts: u8,
     hist_all_mids: bool,
     tsig_extra_max: usize,
+    wire_dist: usize,
+    wire_all_splits_upto: usize,
+    wire_faults: bool,
 }
 
 fn masks_for(n: usize, all_upto: usize, max_cuts: u32) -> Vec<u32> {
@@ -1409,6 +1724,10 @@ enum Fault {
     DropFirstRr,
     FirstRrNotSoa,
     FinalSoaSerial,
+    /// a record whose owner is outside the zone, put at the end of message i
+    ForeignOwner(usize),
+    /// the last octets of message i are missing (the last record is cut short)
+    Chop(usize),
 }
 
 fn fault_name(f: &Fault) -> String {
@@ -1428,6 +1747,8 @@ fn fault_name(f: &Fault) -> String {
         Fault::DropFirstRr => "first-rr-dropped@0".into(),
         Fault::FirstRrNotSoa => "first-rr-not-soa@0".into(),
         Fault::FinalSoaSerial => "final-soa-serial-changed@last".into(),
+        Fault::ForeignOwner(i) => format!("out-of-zone-owner@{i}"),
+        Fault::Chop(i) => format!("last-octets-missing@{i}"),
     }
 }
 
@@ -1455,6 +1776,8 @@ fn all_faults(specs: &[MsgSpec]) -> Vec<Fault> {
             v.push(Fault::Qtype(i, q));
         }
         v.push(Fault::Nscount(i));
+        v.push(Fault::ForeignOwner(i));
+        v.push(Fault::Chop(i));
     }
     for i in 0..=m {
         v.push(Fault::EmptyMsgAt(i));
@@ -1523,6 +1846,12 @@ fn apply_fault(specs: &[MsgSpec], f: &Fault) -> Option<Vec<MsgSpec>> {
             }
         }
         Fault::FirstRrNotSoa => s[0].recs[0] = MRec { owner: 3, rd: RD::A(7) },
+        Fault::ForeignOwner(i) => {
+            // before a closing SOA, so that it is part of the transfer
+            let at = s[i].recs.len().saturating_sub(1).max(if i == 0 { 1 } else { 0 }).min(s[i].recs.len());
+            s[i].recs.insert(at, MRec { owner: 4, rd: RD::A(8) });
+        }
+        Fault::Chop(i) => s[i].chop = 3,
         Fault::FinalSoaSerial => {
             let l = s.last_mut().unwrap();
             let r = l.recs.last_mut().unwrap();
@@ -1570,6 +1899,7 @@ fn run_pair(sh: &Shared, old_k: Kinds, new_k: Kinds, b: &Bounds) {
                     msgs,
                     custom_old: None,
                     replay_as: None,
+                via_client: None,
                 };
                 judge(sh, &c, false);
             }
@@ -1609,6 +1939,7 @@ fn run_pair(sh: &Shared, old_k: Kinds, new_k: Kinds, b: &Bounds) {
                     msgs,
                     custom_old: None,
                     replay_as: None,
+                via_client: None,
                 };
                 judge(sh, &c, false);
             }
@@ -1685,6 +2016,9 @@ async fn run_edits(zone: &Zone, ops: &[Op], mode: u8) -> Result<Option<DiffObs>,
     }
     drop(root);
     let d = w.commit(mode == 1).await.map_err(|e| format!("commit:{e}"))?;
+    if let Some(why) = d.as_ref().and_then(diff_trait_view_differs) {
+        return Err(format!("diff-trait-view-differs-from-fields:{why}"));
+    }
     Ok(d.as_ref().map(diff_obs))
 }
 
@@ -1945,41 +2279,30 @@ struct SReq {
     udp: bool,
     limit: u16,
     compat: bool,
+    /// the request travels through the real stream client and an in-memory
+    /// connection to a minimal server loop around the middleware
+    via_client: bool,
+    /// 0: a provider with the zone and its diffs; 1: the `Zone` itself;
+    /// 2: an `Arc<ZoneTree>` holding the zone (both without diffs)
+    provider: u8,
+    /// the request names another zone (y.)
+    foreign: bool,
 }
 
 struct SOut {
     msgs: Vec<Bytes>,
     feedback: Vec<String>,
     errors: Vec<String>,
+    /// via the stream client: what the server wrote, and how the client ended
+    emitted: Vec<Bytes>,
+    client_error: Option<String>,
 }
 
-async fn run_sender(versions: &[(u32, BTreeSet<MRec>)], rq: &SReq) -> Result<SOut, String> {
-    let zone = build_zone(versions[0].0, &versions[0].1);
-    let mut diffs = vec![];
-    for w in versions.windows(2) {
-        match edit_to(&zone, &w[0].1, &w[1].1, w[1].0).await? {
-            Some(d) => diffs.push(Arc::new(d)),
-            // (no diff can describe a step that is not forward in serial arithmetic)
-            None if !serial_newer(actual(w[1].0), actual(w[0].0)) => {}
-            None => return Err("no-diff-from-commit".into()),
-        }
-    }
-    let svc = XfrMiddlewareSvc::<Vec<u8>, NoSvc, (), Provider>::new(NoSvc, Provider { zone, diffs, compat: rq.compat }, 1);
-    let mut q = MessageBuilder::new_vec().question();
-    q.header_mut().set_id(0x4242);
-    q.push((name(0), Rtype::from_int(rq.qtype))).unwrap();
-    let msg = if let Some(s) = rq.serial {
-        let mut a = q.authority();
-        a.push((name(0), Class::IN, Ttl::from_secs(TTL), data(RD::Soa(s)))).unwrap();
-        a.into_message()
-    } else {
-        q.into_message()
-    };
-    let tctx: TransportSpecificContext = if rq.udp { UdpTransportContext::new(None).into() } else { NonUdpTransportContext::new(None).into() };
-    let mut request = Request::new("192.0.2.1:5300".parse().unwrap(), tokio::time::Instant::now(), msg, tctx, ());
-    let full: u16 = if rq.udp { 512 } else { u16::MAX };
-    request.reserve_bytes(full - rq.limit.min(full));
-    let mut out = SOut { msgs: vec![], feedback: vec![], errors: vec![] };
+/// Call the service like a server transport does and collect its responses.
+async fn call_service<S>(svc: &S, request: Request<Vec<u8>, ()>, out: &mut SOut) -> Result<(), String>
+where
+    S: Service<Vec<u8>, (), Target = Vec<u8>>,
+{
     let fut = async {
         let mut stream = svc.call(request).await;
         while let Some(item) = stream.next().await {
@@ -2000,11 +2323,93 @@ async fn run_sender(versions: &[(u32, BTreeSet<MRec>)], rq: &SReq) -> Result<SOu
     if tokio::time::timeout(std::time::Duration::from_secs(10), fut).await.is_err() {
         return Err("response-stream-never-ends".into());
     }
+    Ok(())
+}
+
+fn mk_request(msg: Message<Vec<u8>>, rq: &SReq) -> Request<Vec<u8>, ()> {
+    let tctx: TransportSpecificContext = if rq.udp { UdpTransportContext::new(None).into() } else { NonUdpTransportContext::new(None).into() };
+    let mut request = Request::new("192.0.2.1:5300".parse().unwrap(), tokio::time::Instant::now(), msg, tctx, ());
+    let full: u16 = if rq.udp { 512 } else { u16::MAX };
+    request.reserve_bytes(full - rq.limit.min(full));
+    request
+}
+
+async fn drive_sender<S>(svc: S, rq: &SReq) -> Result<SOut, String>
+where
+    S: Service<Vec<u8>, (), Target = Vec<u8>> + Clone + Send + Sync + 'static,
+    S::Future: Send,
+    S::Stream: Send,
+{
+    let mut out = SOut { msgs: vec![], feedback: vec![], errors: vec![], emitted: vec![], client_error: None };
+    if !rq.via_client {
+        let mut q = MessageBuilder::new_vec().question();
+        q.header_mut().set_id(0x4242);
+        q.push((name(if rq.foreign { 5 } else { 0 }), Rtype::from_int(rq.qtype))).unwrap();
+        let msg = if let Some(s) = rq.serial {
+            let mut a = q.authority();
+            a.push((name(0), Class::IN, Ttl::from_secs(TTL), data(RD::Soa(s)))).unwrap();
+            a.into_message()
+        } else {
+            q.into_message()
+        };
+        call_service(&svc, mk_request(msg, rq), &mut out).await?;
+        return Ok(out);
+    }
+    // the real stream client on one end of an in-memory connection, a
+    // minimal server loop around the middleware on the other
+    let emitted: Arc<Mutex<Vec<Bytes>>> = Default::default();
+    let errors: Arc<Mutex<Vec<String>>> = Default::default();
+    let (em2, er2, rq2) = (emitted.clone(), errors.clone(), rq.clone());
+    let server = move |mut srv: tokio::io::DuplexStream, req: Vec<u8>| -> Pin<Box<dyn Future<Output = ()> + Send>> {
+        Box::pin(async move {
+            let Ok(msg) = Message::from_octets(req) else { return };
+            let mut o = SOut { msgs: vec![], feedback: vec![], errors: vec![], emitted: vec![], client_error: None };
+            if let Err(e) = call_service(&svc, mk_request(msg, &rq2), &mut o).await {
+                er2.lock().unwrap().push(e);
+            }
+            er2.lock().unwrap().extend(o.errors);
+            for m in &o.msgs {
+                em2.lock().unwrap().push(m.clone());
+                if !write_framed(&mut srv, m).await {
+                    return;
+                }
+            }
+            use tokio::io::AsyncWriteExt;
+            let _ = srv.shutdown().await;
+        })
+    };
+    let d = client_exchange(rq.qtype, rq.serial, server, async |_b: &Bytes| true).await;
+    out.msgs = d.msgs;
+    out.client_error = d.error;
+    out.emitted = emitted.lock().unwrap().clone();
+    out.errors = errors.lock().unwrap().clone();
     Ok(out)
 }
 
+async fn run_sender(versions: &[(u32, BTreeSet<MRec>)], rq: &SReq) -> Result<SOut, String> {
+    let zone = build_zone(versions[0].0, &versions[0].1);
+    let mut diffs = vec![];
+    for w in versions.windows(2) {
+        match edit_to(&zone, &w[0].1, &w[1].1, w[1].0).await? {
+            Some(d) => diffs.push(Arc::new(d)),
+            // (no diff can describe a step that is not forward in serial arithmetic)
+            None if !serial_newer(actual(w[1].0), actual(w[0].0)) => {}
+            None => return Err("no-diff-from-commit".into()),
+        }
+    }
+    match rq.provider {
+        0 => drive_sender(XfrMiddlewareSvc::<Vec<u8>, NoSvc, (), Provider>::new(NoSvc, Provider { zone, diffs, compat: rq.compat }, 1), rq).await,
+        1 => drive_sender(XfrMiddlewareSvc::<Vec<u8>, NoSvc, (), Zone>::new(NoSvc, zone, 1), rq).await,
+        _ => {
+            let mut tree = ZoneTree::new();
+            tree.insert_zone(zone).map_err(|e| format!("insert_zone:{e}"))?;
+            drive_sender(XfrMiddlewareSvc::<Vec<u8>, NoSvc, (), Arc<ZoneTree>>::new(NoSvc, Arc::new(tree), 1), rq).await
+        }
+    }
+}
+
 fn sreq_json(r: &SReq) -> Value {
-    json!({"qtype": r.qtype, "serial": r.serial, "udp": r.udp, "limit": r.limit, "compat": r.compat})
+    json!({"qtype": r.qtype, "serial": r.serial, "udp": r.udp, "limit": r.limit, "compat": r.compat, "via_client": r.via_client, "provider": r.provider, "foreign": r.foreign})
 }
 
 fn run_sender_case(sh: &Shared, ks: &[Kinds], rq: &SReq, verbose: bool) {
@@ -2027,10 +2432,12 @@ fn run_sender_case(sh: &Shared, ks: &[Kinds], rq: &SReq, verbose: bool) {
     sh.stats.distinct(fnv(&key));
     let cj = || json!({"part": "S", "scheme": scheme(), "zones": ks, "request": sreq_json(rq)});
     let rname = format!(
-        "{}/{}{}",
+        "{}/{}{}{}{}",
         if rq.qtype == 252 { "axfr" } else { "ixfr" },
         if rq.udp { "udp" } else { "tcp" },
-        if rq.compat { "/compat" } else { "" }
+        if rq.compat { "/compat" } else { "" },
+        ["", "/provider=Zone", "/provider=Arc<ZoneTree>"][rq.provider as usize],
+        if rq.via_client { "/via-stream-client" } else { "" }
     );
     let out = match r {
         Err(p) => {
@@ -2047,6 +2454,45 @@ fn run_sender_case(sh: &Shared, ks: &[Kinds], rq: &SReq, verbose: bool) {
     if verbose {
         println!("sender case: zones={ks:?} request={rq:?}");
         println!("  feedback {:?} errors {:?} messages {}", out.feedback, out.errors, out.msgs.len());
+    }
+    // a request for a zone the sender does not have: one error response, nothing of the zone
+    if rq.foreign {
+        let ok = out.errors.is_empty() && out.msgs.len() == 1 && wire::read_message(&out.msgs[0]).map(|m| m.flags & 0xf != 0 && m.counts[1] == 0).unwrap_or(false);
+        lcount(&format!("S:{rname}:foreign-zone:refused={ok}"));
+        if !ok {
+            report(sh, &format!("C10|sender|{rname}|request-for-another-zone-not-refused"), &|| format!("{} responses, errors {:?}", out.msgs.len(), out.errors), &cj);
+        }
+        return;
+    }
+    // the stream client must hand over what the server wrote, up to the end of the transfer
+    if rq.via_client {
+        let old_for_ref = &all_obs[match rq.serial {
+            Some(s) if s >= 1 && (s as usize) <= versions.len() => s as usize - 1,
+            _ => 0,
+        }];
+        let ref_em = reference(&out.emitted, old_for_ref);
+        let prefix = out.msgs.len() <= out.emitted.len() && out.msgs.iter().zip(out.emitted.iter()).all(|(a, b)| a == b);
+        if ref_em.verdict == V::Open {
+            return; // SOA SOA: not judged (see the reference)
+        }
+        if !prefix {
+            report(sh, &format!("C10|client|{rname}|delivered-messages-are-not-the-sent-messages"), &|| format!("{} delivered, {} sent", out.msgs.len(), out.emitted.len()), &cj);
+            return;
+        }
+        if ref_em.verdict == V::Valid && reference(&out.msgs, old_for_ref).verdict != V::Valid {
+            let lone = wire::read_message(&out.emitted[0]).map(|m| m.counts[1] == 1).unwrap_or(false) && rq.qtype == 251;
+            report(
+                sh,
+                &format!(
+                    "C10|client|stream|valid-transfer-not-delivered|{}{}",
+                    out.client_error.clone().map(|e| format!("error={e}")).unwrap_or("end-of-responses-before-the-transfer-was-complete".into()),
+                    if lone { "|first-message-holds-only-the-soa" } else { "" }
+                ),
+                &|| format!("the server sent {} messages forming a valid transfer; the stream client delivered {} and then {:?}", out.emitted.len(), out.msgs.len(), out.client_error),
+                &cj,
+            );
+            return;
+        }
     }
     // what the requester holds
     let client_idx = match rq.serial {
@@ -2098,6 +2544,11 @@ fn run_sender_case(sh: &Shared, ks: &[Kinds], rq: &SReq, verbose: bool) {
         lcount("S:udp-single-soa-retry-signal");
         return;
     }
+    // a size limit no record fits in: an error response (or, if the sender finds a way, a valid transfer)
+    if rq.limit < 60 && out.msgs.iter().any(|m| wire::read_message(m).map(|r| r.flags & 0xf != 0).unwrap_or(false)) && refo.verdict == V::Invalid {
+        lcount("S:limit-too-small-for-a-record:error-response");
+        return;
+    }
     if rq.udp && out.msgs.len() != 1 {
         report(sh, &format!("C10|sender|{rname}|more-than-one-datagram"), &|| format!("{} UDP responses", out.msgs.len()), &cj);
     }
@@ -2118,26 +2569,46 @@ fn run_sender_case(sh: &Shared, ks: &[Kinds], rq: &SReq, verbose: bool) {
         msgs: out.msgs.clone(),
         custom_old: None,
         replay_as: None,
+                via_client: None,
     };
     judge(sh, &c, verbose);
 }
 
 fn sender_requests() -> Vec<SReq> {
+    let base = SReq { qtype: 252, serial: None, udp: false, limit: u16::MAX, compat: false, via_client: false, provider: 0, foreign: false };
     let mut v = vec![];
-    for limit in [u16::MAX, 130, 90] {
-        for compat in [false, true] {
-            v.push(SReq { qtype: 252, serial: None, udp: false, limit, compat });
-        }
-        for serial in [0u32, 1, 2, 3] {
-            v.push(SReq { qtype: 251, serial: Some(serial), udp: false, limit, compat: false });
+    // 50: not even the SOA fits a response
+    for limit in [u16::MAX, 130, 90, 50] {
+        for via_client in [false, true] {
+            for compat in [false, true] {
+                v.push(SReq { limit, compat, via_client, ..base.clone() });
+            }
+            for serial in [0u32, 1, 2, 3] {
+                v.push(SReq { qtype: 251, serial: Some(serial), limit, via_client, ..base.clone() });
+            }
         }
     }
-    v.push(SReq { qtype: 252, serial: None, udp: true, limit: 512, compat: false });
+    v.push(SReq { udp: true, limit: 512, ..base.clone() });
     // 512: every answer of the universe fits; 100: not even SOA SOA fits (order-independent outcomes)
     for limit in [512u16, 100] {
         for serial in [0u32, 1, 2, 3] {
-            v.push(SReq { qtype: 251, serial: Some(serial), udp: true, limit, compat: false });
+            v.push(SReq { qtype: 251, serial: Some(serial), udp: true, limit, ..base.clone() });
         }
+    }
+    // the other data providers (no diffs: every IXFR is answered AXFR-style)
+    for provider in [1u8, 2] {
+        for via_client in [false, true] {
+            v.push(SReq { provider, via_client, ..base.clone() });
+            for serial in [0u32, 1, 2] {
+                v.push(SReq { qtype: 251, serial: Some(serial), provider, via_client, ..base.clone() });
+            }
+        }
+        v.push(SReq { qtype: 251, serial: Some(1), udp: true, limit: 512, provider, ..base.clone() });
+    }
+    // a request for a zone the sender does not have
+    for provider in [0u8, 1, 2] {
+        v.push(SReq { provider, foreign: true, ..base.clone() });
+        v.push(SReq { qtype: 251, serial: Some(1), provider, foreign: true, ..base.clone() });
     }
     v
 }
@@ -2168,6 +2639,10 @@ fn run_sender_part(sh: &Shared, b: &Bounds) {
         with_scheme(*sc, || {
             for rq in &reqs {
                 if rq.serial.map(|s| s as usize > ks.len()).unwrap_or(false) {
+                    continue;
+                }
+                // the transport and provider variants do not depend on the serials: plain and wrapping scheme only
+                if *sc > 1 && rq.via_client || *sc > 0 && (rq.provider != 0 || rq.foreign || rq.limit == 50) {
                     continue;
                 }
                 run_sender_case(sh, ks, rq, false);
@@ -2211,6 +2686,7 @@ fn run_serial_part(sh: &Shared, b: &Bounds) {
                         msgs,
                         custom_old: None,
                         replay_as: None,
+                via_client: None,
                     };
                     judge(sh, &c, false);
                 }
@@ -2253,10 +2729,96 @@ fn replay_sender(sh: &Shared, case: &Value) {
         udp: r["udp"].as_bool().unwrap(),
         limit: r["limit"].as_u64().unwrap() as u16,
         compat: r["compat"].as_bool().unwrap(),
+        via_client: r["via_client"].as_bool().unwrap_or(false),
+        provider: r["provider"].as_u64().unwrap_or(0) as u8,
+        foreign: r["foreign"].as_bool().unwrap_or(false),
     };
     run_sender_case(sh, &ks, &rq, true);
 }
 
+
+// ====================================================================
+// Part W: the same streams served over an in-memory connection and read
+// by the real stream client (net::client::stream, multi-response request)
+// ====================================================================
+//
+// The scripted server answers the request the client really sent (ID taken
+// from it) with the messages of the stream and closes the connection.  The
+// client's own end-of-transfer detection decides how many messages reach the
+// interpreter.  Same reference, same oracles as parts R and F.
+
+fn run_wire_pair(sh: &Shared, old_k: Kinds, new_k: Kinds, b: &Bounds) {
+    let old = zone_recs(old_k);
+    for st in streams_for(old_k, new_k, b) {
+        let n = st.seq.len();
+        let client_serial = if st.qtype == 251 { Some(1) } else { None };
+        for mask in masks_for(n, b.wire_all_splits_upto, 1) {
+            let qmode = (mask.count_ones() & 1) as u8;
+            let specs = split_specs(&st.seq, mask, st.qtype, qmode);
+            let msgs: Vec<Bytes> = specs.iter().map(build_msg).collect();
+            let c = Case {
+                part: "W",
+                label: format!("{}/new={:?}/mask={:#b}/q={}", st.label, new_k, mask, qmode),
+                old_kinds: old_k,
+                old_serial: 1,
+                old: &old,
+                honest_new: Some(st.new_obs.clone()),
+                honest_versions: st.versions.clone(),
+                fault: None,
+                msgs,
+                custom_old: None,
+                replay_as: None,
+                via_client: Some((st.qtype, client_serial)),
+            };
+            judge(sh, &c, false);
+            // faults: on the single-message and the one-RR-per-message packaging
+            let total = (1u32 << (n - 1)) - 1;
+            if !(mask == 0 || mask == total) || !b.wire_faults {
+                continue;
+            }
+            if st.label.starts_with("ixfr-2step") && (st.kinds[1] == st.kinds[0] || st.kinds[1] == st.kinds[2]) {
+                continue;
+            }
+            for f in all_faults(&specs) {
+                let Some(fs) = apply_fault(&specs, &f) else { continue };
+                let msgs: Vec<Bytes> = fs.iter().map(build_msg).collect();
+                let c = Case {
+                    part: "W",
+                    label: format!("{}/new={:?}/mask={:#b}/q={}", st.label, new_k, mask, qmode),
+                    old_kinds: old_k,
+                    old_serial: 1,
+                    old: &old,
+                    honest_new: None,
+                    honest_versions: vec![],
+                    fault: Some(fault_name(&f)),
+                    msgs,
+                    custom_old: None,
+                    replay_as: None,
+                    via_client: Some((st.qtype, client_serial)),
+                };
+                judge(sh, &c, false);
+            }
+        }
+    }
+}
+
+fn run_wire_part(sh: &Shared, b: &Bounds) {
+    let mut work = vec![];
+    for sc in [0usize, 1] {
+        for oi in 0..64 {
+            for ni in 0..64 {
+                if dist(kinds_of(oi), kinds_of(ni)) <= b.wire_dist {
+                    work.push((sc, kinds_of(oi), kinds_of(ni)));
+                }
+            }
+        }
+    }
+    work.par_iter().for_each(|(sc, o, n)| {
+        // (faults under the plain serials only)
+        let bb = Bounds { wire_faults: b.wire_faults && *sc == 0, ..*b };
+        with_scheme(*sc, || run_wire_pair(sh, *o, *n, &bb))
+    });
+}
 
 // ====================================================================
 // Part H: histories of two updates of one zone, the first one aborted
@@ -2795,6 +3357,7 @@ fn run_tsig_case(sh: &Shared, extra: usize, rq: TReq, verbose: bool) {
         msgs: out.msgs.clone(),
         custom_old: Some((client_obs, &mk)),
         replay_as: Some(cj()),
+        via_client: None,
     };
     judge(sh, &c, verbose);
 }
@@ -2852,7 +3415,7 @@ fn replay(sh: &Shared, case: &Value, b: &Bounds) {
             let old = zone_recs(old_k);
             let msgs: Vec<Bytes> = case["msgs"].as_array().unwrap().iter().map(|m| Bytes::from(unhex(m.as_str().unwrap()))).collect();
             let c = Case {
-                part: "F",
+                part: if case["via_client"].is_object() { "W" } else { "F" },
                 label: case["label"].as_str().unwrap_or("replay").to_string(),
                 old_kinds: old_k,
                 old_serial: case["old_serial"].as_u64().unwrap_or(1) as u32,
@@ -2863,6 +3426,7 @@ fn replay(sh: &Shared, case: &Value, b: &Bounds) {
                 msgs,
                 custom_old: None,
                 replay_as: None,
+                via_client: case["via_client"].as_object().map(|o| (o["qtype"].as_u64().unwrap() as u16, o["serial"].as_u64().map(|x| x as u32))),
             };
             judge(sh, &c, true);
         }
@@ -2873,9 +3437,9 @@ fn main() {
     let ctx = Ctx::new("C10", "model_checking");
     let sh = Shared { ctx: ctx.clone(), stats: Stats::new(), seen: Default::default(), sample_keys: Default::default(), samples: Default::default() };
     let b = if ctx.quick() {
-        Bounds { max_dist: 2, all_splits_upto: 8, both_qmodes: false, mid_first: 1, mid_second: 1, fault_dist: 1, fault_cuts: 1, diff_len: 2, sender_dist: 1, hist_dist: 1, hist_aborts: 2, hist_all_mids: false, tsig_extra_max: 230 }
+        Bounds { max_dist: 2, all_splits_upto: 8, both_qmodes: false, mid_first: 1, mid_second: 1, fault_dist: 1, fault_cuts: 1, diff_len: 2, sender_dist: 1, hist_dist: 1, hist_aborts: 2, hist_all_mids: false, tsig_extra_max: 230, wire_dist: 1, wire_all_splits_upto: 0, wire_faults: true }
     } else {
-        Bounds { max_dist: 3, all_splits_upto: 10, both_qmodes: true, mid_first: 1, mid_second: 2, fault_dist: 2, fault_cuts: 2, diff_len: 3, sender_dist: 2, hist_dist: 2, hist_aborts: 2, hist_all_mids: true, tsig_extra_max: 230 }
+        Bounds { max_dist: 3, all_splits_upto: 10, both_qmodes: true, mid_first: 1, mid_second: 2, fault_dist: 2, fault_cuts: 2, diff_len: 3, sender_dist: 2, hist_dist: 2, hist_aborts: 2, hist_all_mids: true, tsig_extra_max: 230, wire_dist: 2, wire_all_splits_upto: 8, wire_faults: true }
     };
     let mut npairs = 0;
     if let Some(p) = &ctx.replay {
@@ -2902,6 +3466,8 @@ fn main() {
         eprintln!("part S done at {:.1}s ({} evaluations)", t0.elapsed().as_secs_f64(), sh.stats.evals());
         run_serial_part(&sh, &b);
         eprintln!("serial schemes done at {:.1}s ({} evaluations)", t0.elapsed().as_secs_f64(), sh.stats.evals());
+        run_wire_part(&sh, &b);
+        eprintln!("part W done at {:.1}s ({} evaluations)", t0.elapsed().as_secs_f64(), sh.stats.evals());
         run_history_part(&sh, &b);
         eprintln!("part H done at {:.1}s ({} evaluations)", t0.elapsed().as_secs_f64(), sh.stats.evals());
         run_tsig_part(&sh, &b);
@@ -2928,7 +3494,7 @@ fn main() {
             "traces_validated_against_impl": total.runs,
             "evaluations": sh.stats.evals(),
             "distinct_nontrivial": sh.stats.distinct_count(),
-            "rule": "distinct (old zone, exact response octets) receiver cases with >=2 messages, a fault, or a changed zone; plus distinct (old zone, non-empty edit sequence, commit mode) diff cases; plus distinct (old,mid,new,request) sender cases; plus distinct (old, first stream, cut, abort kind, second target, second form) histories; plus distinct (RNAME extension, request kind) TSIG sender cases",
+            "rule": "distinct (old zone, exact response octets) receiver cases with >=2 messages, a fault, or a changed zone; plus distinct (old zone, non-empty edit sequence, commit mode) diff cases; plus distinct (old,mid,new,request) sender cases; plus distinct (old, first stream, cut, abort kind, second target, second form) histories; plus distinct (RNAME extension, request kind) TSIG sender cases; part W cases count like part R/F cases",
             "exhaustive": true,
             "bounds": {
                 "zones": 64, "ordered_pairs": npairs, "pair_distance": b.max_dist, "all_splits_up_to_rrs": b.all_splits_upto, "beyond": "all splits with <=2 cuts + one RR per message",
@@ -2936,6 +3502,7 @@ fn main() {
                 "fault_pair_distance": b.fault_dist, "fault_split_cuts": b.fault_cuts, "diff_edit_len": b.diff_len,
                 "history": format!("first update: every stream of pairs 1..={} RRsets apart{}, one RR per message, cut after every RR, {} abort kinds; second update: 3 forms to every zone <=1 RRset from the version reached", b.hist_dist, if b.hist_all_mids { " (all 2-step mids)" } else { " (2-step mids different from both ends)" }, b.hist_aborts),
                 "serial_schemes": format!("{:?} as (start, step); part S complete under all, parts R (pairs <=1 apart, <=1 cut + one RR per message) and D (<=1 edit) under schemes 1..", SCHEMES),
+                "wire_stream_client": format!("pairs <={} RRsets apart, serial schemes 0 and 1, honest splits: {}, all faults on the single-message and one-RR-per-message packagings (scheme 0)", b.wire_dist, if b.wire_all_splits_upto > 0 { format!("all up to {} RRs, beyond <=1 cut + one RR per message", b.wire_all_splits_upto) } else { "<=1 cut + one RR per message".to_string() }),
                 "tsig_sender": format!("SOA + {} TXT records of {} octets, RNAME extension 0 and 2..={} octets, 4 request kinds", FILLERS, FILL_TXT, b.tsig_extra_max),
             },
             "histogram": total.counters,
